@@ -7,17 +7,56 @@ import PromProofs.ReadOnlyMain
 namespace Prom.Db
 open Prom.Intervals
 
+theorem tmod_nonpos_of_neg' (t w : Int) (ht : t < 0) : t.tmod w ≤ 0 := by
+  have h := Int.tmod_nonneg (a := -t) w (by omega)
+  rw [Int.neg_tmod] at h
+  omega
+
+/-- `rangeStartForTimestamp t w` is the multiple of `w` at or below `t` (floor alignment). -/
+theorem rangeStart_spec (t w : Int) (hw : 0 < w) :
+    ∃ q : Int, rangeStartForTimestamp t w = w * q ∧ w * q ≤ t ∧ t < w * q + w := by
+  unfold rangeStartForTimestamp
+  simp only []
+  have h1 := Int.tmod_def t w
+  have h2 := Int.tmod_lt_of_pos t hw
+  have h3 := Int.lt_tmod_of_pos t hw
+  have hc : t.tdiv w * w = w * t.tdiv w := Int.mul_comm _ _
+  split
+  · rename_i hneg
+    have h4 := tmod_nonpos_of_neg' t w hneg.1
+    have h5 := hneg.2
+    refine ⟨t.tdiv w - 1, ?_, ?_, ?_⟩ <;> rw [Int.mul_sub, Int.mul_one] <;> omega
+  · rename_i hneg
+    refine ⟨t.tdiv w, ?_, ?_, ?_⟩
+    · omega
+    · by_cases ht : t < 0
+      · have h5 : t.tmod w = 0 := by
+          by_cases h : t.tmod w = 0
+          · exact h
+          · exact absurd ⟨ht, h⟩ hneg
+        omega
+      · have h4 := Int.tmod_nonneg (a := t) w (by omega)
+        omega
+    · by_cases ht : t < 0
+      · have h5 : t.tmod w = 0 := by
+          by_cases h : t.tmod w = 0
+          · exact h
+          · exact absurd ⟨ht, h⟩ hneg
+        omega
+      · omega
+
 theorem rft_gt (t w : Int) (hw : 0 < w) : t < rangeForTimestamp t w := by
   unfold rangeForTimestamp
-  have h1 := Int.tmod_lt_of_pos t hw
-  have h2 := Int.tmod_def t w
-  have h3 : w * t.tdiv w = t.tdiv w * w := Int.mul_comm _ _
+  obtain ⟨q, hq, _, h2⟩ := rangeStart_spec t w hw
   omega
 
 theorem rft_mono (a b w : Int) (hw : 0 < w) (h : a ≤ b) : rangeForTimestamp a w ≤ rangeForTimestamp b w := by
   unfold rangeForTimestamp
-  have := Int.tdiv_le_tdiv hw h
-  have := Int.mul_le_mul_of_nonneg_right this (Int.le_of_lt hw)
+  obtain ⟨qa, hqa, ha1, _⟩ := rangeStart_spec a w hw
+  obtain ⟨qb, hqb, _, hb2⟩ := rangeStart_spec b w hw
+  have hlt : w * qa < w * (qb + 1) := by rw [Int.mul_add, Int.mul_one]; omega
+  have hq : qa < qb + 1 := Int.lt_of_mul_lt_mul_left hlt (Int.le_of_lt hw)
+  have hle : w * qa ≤ w * qb := Int.mul_le_mul_of_nonneg_left (by omega) (Int.le_of_lt hw)
   omega
 
 /-- Every block ends at the range boundary above its MinTime. -/
